@@ -42,6 +42,8 @@ pub struct StepOut {
     pub skipped: bool,
     /// the op with every selector resolved to `Sel::Slot` (None when skipped)
     pub concrete: Option<Op>,
+    /// further observable text of the call (e.g. `Display` of the error) — part of build digests
+    pub detail: String,
 }
 
 #[derive(Clone, Copy, Debug)]
@@ -945,7 +947,7 @@ impl<P: Payload> World<P> {
                     Kind::After => t.checked_insert_after(n, arena),
                     Kind::Before => t.checked_insert_before(n, arena),
                 }
-                .map_err(|e| format!("{:?}", e))
+                .map_err(|e| format!("{:?}|{}", e, e))
             } else {
                 match kind {
                     Kind::Append => t.append(n, arena),
@@ -1026,6 +1028,9 @@ impl<P: Payload> World<P> {
                 }
             }
             (Outcome::Err(name), true) => {
+                let (name, disp) = name.split_once('|').map(|(a, b)| (a.to_string(), b.to_string())).unwrap_or((name.clone(), String::new()));
+                let name = &name;
+                o.detail = disp;
                 o.outcome = format!("err:{name}");
                 if !checked {
                     unreachable!("unchecked forms have no error result");
@@ -1066,6 +1071,7 @@ impl<P: Payload> World<P> {
                 }
             }
             (Outcome::Err(name), false) => {
+                let name = &name.split('|').next().unwrap_or("").to_string();
                 o.outcome = format!("err:{name}");
                 if in_place {
                     blame.push("C03");
